@@ -1,0 +1,16 @@
+//go:build verif
+
+package pruner
+
+import (
+	"github.com/ipfs/go-datastore"
+	"go.uber.org/fx"
+
+	"github.com/celestiaorg/celestia-node/pruner"
+)
+
+// VerifConvertToPruned exposes convertToPruned (the start hook deciding the one-way
+// archival -> pruned conversion) to the verification harness. Build tag `verif` only.
+func VerifConvertToPruned(lc fx.Lifecycle, cfg *Config, ds datastore.Batching, p *pruner.Service) error {
+	return convertToPruned(lc, cfg, ds, p)
+}
